@@ -24,6 +24,7 @@ from __future__ import annotations
 import asyncio
 import collections
 import gc
+import json
 import os
 import random
 import struct
@@ -699,6 +700,31 @@ def _replay_states(tasks):
     return n_edges, fails, used, skipped
 
 
+def _records(out: str, tables: list):
+    """The JSON records TLC printed, one at a time (1.4M edges in thorough: the text is walked without
+    splitting it, and equal states / actions / outputs of different edges become ONE shared object)."""
+    pools = {"src": {}, "act": {}, "obs": {}}
+    pools["dst"] = pools["src"]
+    pos, n = 0, len(out)
+    while pos < n:
+        end = out.find("\n", pos)
+        if end < 0:
+            end = n
+        if out.startswith('"{', pos):
+            try:
+                r = json.loads(json.loads(out[pos:end]))
+            except Exception:
+                raise common.MachineryError("unparseable PrintT line: %r" % out[pos:pos + 200])
+            if "table" in r:
+                tables.append(r)
+            else:
+                for key, pool in pools.items():
+                    if key in r:
+                        r[key] = pool.setdefault(common.skey(r[key]), r[key])
+                yield r
+        pos = end + 1
+
+
 def _features(f):
     m = f["mismatches"][0]
     act = f["act"]
@@ -721,21 +747,15 @@ def _b1(chk: Check, consts, label, layouts=(0, 1)):
     chk.require_model_ok(res, "UdpProxy_MBT " + label)
     if not res.ok:
         return 0, 0
-    recs = res.printed()
-    tables = [r for r in recs if "table" in r]
+    tables = []
+    g = Graph(_records(res.out, tables))
+    res.out = ""
     if len(tables) != 1:
         raise common.MachineryError("UdpProxy_MBT printed %d table records" % len(tables))
-    g = Graph(recs)
     table = tables[0]["table"]
-    # memory: 1.4M edges in thorough; every edge shares the state objects instead of its own parsed
-    # copies, the raw TLC output and record list go away, and the heap is frozen before forking so
-    # that the workers do not copy it page by page
     canon = {k: k for k in g.states}
     for e in g.edges:
         e["_s"], e["_d"] = canon[e["_s"]], canon[e["_d"]]
-        e["src"], e["dst"] = g.states[e["_s"]], g.states[e["_d"]]
-    del recs, tables
-    res.out = ""
     gc.collect()
     _prep(g)
     _G, _TABLE, _CONST, _SEED = g, table, consts, chk.seed
